@@ -375,8 +375,14 @@ func (p *pgParser) primary() PgExpr {
 		if p.acceptKw("SELECT") {
 			// (SELECT bool_and( body ) FROM jsonb_each(of) | jsonb_array_elements(of))
 			agg := p.next()
-			if !strings.EqualFold(agg.V, "bool_and") {
-				p.fail("only bool_and aggregates are supported")
+			aggKind := ""
+			switch strings.ToLower(agg.V) {
+			case "bool_and", "every":
+				aggKind = "and"
+			case "bool_or":
+				aggKind = "or"
+			default:
+				p.fail("only bool_and / bool_or aggregates are supported")
 			}
 			p.expectP("(")
 			body := p.expr()
@@ -396,7 +402,7 @@ func (p *pgParser) primary() PgExpr {
 			of := p.expr()
 			p.expectP(")")
 			p.expectP(")")
-			return PgExpr{"e": "booland", "body": body, "src": kind, "of": of}
+			return PgExpr{"e": "booland", "agg": aggKind, "body": body, "src": kind, "of": of}
 		}
 		e := p.expr()
 		p.expectP(")")
